@@ -20,9 +20,9 @@ TypeOK == Len(seq) <= MaxLen
 \* one case per distinct state
 EmitState == EmitMode # "all" \/ seq = <<>> \/ PrintT("@@TR " \o ToJson([toks |-> seq, seq |-> TRUE]))
 
-TokAlphabet == {"foo", "1", "5m", "$S:x", "(", ")", "{", "}", "[", "]", ",", ":", "=", "=~", "+", "-", "^", "==", "and",
-                "bool", "on", "group_left", "by", "sum", "topk", "count_values", "rate", "time",
-                "offset", "@", "start", "step", "anchored", "fill", "</", "Inf"}
+TokAlphabet == {"foo", "1", "5m", "$S:x", "(", ")", "{", "}", "[", "]", ",", ":", "=", "+", "-", "^", "==", "and",
+                "bool", "on", "group_left", "by", "sum", "topk", "rate",
+                "offset", "@", "start", "fill", "NaN"}
 TokAlphabetBig == {"foo", "1", "5m", "$S:x", "(", ")", "{", "}", "[", "]", ",", ":", "=", "=~", "+", "-", "*", "^", "==", "and", "or",
                 "unless", "bool", "on", "ignoring", "group_left", "by", "without", "sum", "topk", "count_values", "rate", "time",
                 "offset", "@", "start", "end", "step", "anchored", "fill", "</", "atan2", "Inf", "a", "smoothed", "range", "1e3", "0x1F",
